@@ -99,10 +99,14 @@ pub struct Stats {
     pub nontrivial_samples: Vec<Value>,
     pub known: BTreeMap<String, u64>,
     pub discards: u64,
+    /// the distinct-case set stopped growing at NONTRIVIAL_CAP entries per worker (memory bound);
+    /// the reported count is then a lower bound
+    pub nontrivial_capped: bool,
     frozen: bool,
 }
 
 pub const MAX_SAMPLES: usize = 4;
+pub const NONTRIVIAL_CAP: usize = 3_000_000;
 
 impl Stats {
     /// one oracle evaluation (one position, one move, one search … as the property defines it)
@@ -129,7 +133,11 @@ impl Stats {
     /// record a distinct non-trivial case by the hash of its identity
     pub fn nontrivial<H: Hash>(&mut self, identity: &H) {
         if !self.frozen {
-            self.nontrivial.insert(hash_of(identity));
+            if self.nontrivial.len() < NONTRIVIAL_CAP {
+                self.nontrivial.insert(hash_of(identity));
+            } else {
+                self.nontrivial_capped = true;
+            }
         }
     }
     pub fn discard(&mut self) {
@@ -161,6 +169,7 @@ impl Stats {
     fn merge(&mut self, o: Stats) {
         self.evaluations += o.evaluations;
         self.discards += o.discards;
+        self.nontrivial_capped |= o.nontrivial_capped;
         for (k, v) in o.classes {
             *self.classes.entry(k).or_insert(0) += v;
         }
@@ -865,6 +874,7 @@ impl Run {
                 "rule": p.rule,
                 "wall_s": (p.wall_s * 1000.0).round() / 1000.0,
                 "discards": p.stats.discards,
+                "distinct_nontrivial_is_lower_bound": p.stats.nontrivial_capped,
             });
             for (k, v) in &p.extra {
                 pv[k] = v.clone();
